@@ -76,6 +76,8 @@ def do_case(L, impl, fam, inp, exp):
     else:
         ref = L.expected(fam, inp, exp)
         flag = ("=" if L.all_allowed(fam, exp, obs, ref) else "!") + ("n" if L.nontrivial(obs, ref) else "t")
+        if flag[0] == "!":
+            details["case"] = [inp, exp]        # saves the parent a second pass over the dump
     return flag + " " + json.dumps(obs, separators=(",", ":")), details
 
 
